@@ -9,7 +9,7 @@ HERE = os.path.dirname(os.path.dirname(os.path.abspath(__file__)))
 CHECKS = {
  "C01": (True,
    'bounded exhaustive exploration of the real API in a statement-counting instrumented build: all token sequences / byte strings / edit neighbourhoods up to a bound x six operations, plus exact step/allocation growth on adversarial families',
-   'Every token sequence <= 4/5 over the 28-token alphabet, every byte string <= 4/6 over 16 lexer-class representatives and <= 5/7 over 9 UTF-8 fragment bytes, every 1-edit neighbour of every depth-1 tree text, each with and without default field, is run through Parse, ToPostgres, ToParameterizedPostgres and (on accepted trees) String, GoString, json.Marshal under recover, in a build where every statement of the library increments a counter: a panic, a budget overrun (2x10^6 statements; need < 10^4) or a %! marker is a violation. 4 872 adversarial families frame(block^n) (812 blocks x 6 frames, incl. a fielded group under a default field) are run for n doubling from 16 to 1 024 / 8 192 tokens with exact statement and allocation counts; growth beyond 9x per doubling (from n=64) or beyond 20x the count at the previous size is a violation, with early exit.',
+   'Every token sequence <= 4/5 over the 28-token alphabet, every byte string <= 4/6 over 16 lexer-class representatives and <= 5/7 over 9 UTF-8 fragment bytes, every 1-edit neighbour of every depth-1 tree text, each with and without default field, is run through Parse, ToPostgres, ToParameterizedPostgres and (on accepted trees) String, GoString, json.Marshal under recover, in a build where every statement of the library increments a counter: a panic, a budget overrun (2x10^6 statements; need < 10^4) or a %! marker is a violation. 4 872 adversarial families frame(block^n) (812 blocks x 6 frames, incl. a fielded group under a default field) are run for n doubling from 16 to 1 024 / 4 096 tokens with exact statement and allocation counts; growth beyond 9x per doubling (from n=64) or beyond 20x the count at the previous size is a violation, with early exit.',
    "Polynomial time is decided as bounded growth on the enumerated families up to the length bound, not proved asymptotically. Instrumentation is regenerated from /repo's working tree on every run (go build -overlay).",
    "4/C01"),
  "C02": (True,
